@@ -57,7 +57,7 @@ fn kind_strategy() -> impl Strategy<Value = CallKind> {
     prop_oneof![3 => Just(CallKind::Fetch), 2 => Just(CallKind::LookupOnly), 2 => Just(CallKind::FetchWithDisk)]
 }
 
-fn fop_c06(keys: u8) -> impl Strategy<Value = FOp> {
+pub fn fop_c06(keys: u8) -> impl Strategy<Value = FOp> {
     prop_oneof![
         6 => (0..keys, kind_strategy()).prop_map(|(k, kind)| FOp::Call { k, kind }),
         4 => (any::<u16>(), prop_oneof![2 => Just(DiskRes::Miss), 1 => Just(DiskRes::Hit), 1 => Just(DiskRes::Err)]).prop_map(|(i, res)| FOp::DiskResolve { i, res }),
@@ -99,6 +99,7 @@ fn fcase(which: Which, max_len: usize) -> impl Strategy<Value = FCase> {
             algo: algo.clone(),
             shards,
             ops,
+            hash: Default::default(),
         })
     })
 }
@@ -165,6 +166,7 @@ fn make_exhaustive(which: Which, depth: usize) -> (u64, impl Fn(u64) -> FCase) {
             algo: algos[ai].clone(),
             shards: 1,
             ops,
+            hash: Default::default(),
         }
     })
 }
